@@ -266,8 +266,38 @@ func (m *MonFailedTx) AfterTx(s *Sim, i int, tx []byte, meta *TxMeta, res *abci.
 		}
 		return false
 	}
+	// an order of the commission pool whose remainder after the fill is below the minimum volume is closed and the remainder
+	// goes back to its owner in the coin the order sells (the swap's coin_out): part of converting the fee through the pool
+	dust := map[string]*big.Int{}
+	if route == "pool" {
+		if pc := ParsePoolTag(tags["tx.commission_details"]); pc != nil && pc.Details != nil {
+			for _, f := range pc.Details.Orders {
+				ok := fmt.Sprintf("order/%d", f.ID)
+				if _, still := cur[ok]; still {
+					continue
+				}
+				parts := strings.Split(m.prev[ok], "/")
+				if len(parts) < 2 {
+					continue
+				}
+				rem := new(big.Int).Sub(BI(parts[1]), BI(f.Sell))
+				if rem.Sign() < 0 {
+					rem = new(big.Int).Sub(BI(parts[0]), BI(f.Sell))
+				}
+				if rem.Sign() > 0 {
+					dust[fmt.Sprintf("bal/%s/%d", f.Seller, pc.CoinOut)] = rem
+				}
+			}
+		}
+	}
 	var bad []string
 	for _, k := range diff {
+		if rem, ok := dust[k]; ok {
+			if up := new(big.Int).Sub(BI(cur[k]), BI(m.prev[k])); up.Sign() > 0 && up.Cmp(rem) <= 0 {
+				m.Res.Count("failed_tx_fee_swap_closed_a_dust_order", 1)
+				continue
+			}
+		}
 		if !allowed(k) {
 			bad = append(bad, fmt.Sprintf("%s: %s -> %s", k, m.prev[k], cur[k]))
 		}
